@@ -58,7 +58,10 @@ def _job(args):
 
 def model_fault_classes(ck, module, maxiters, refinement):
     wd = tlc.workdir("c10/" + module)
-    r = tlc.run_tlc(module, FAITHFUL_CFG % (maxiters, refinement, 1), wd, dump="graph", coverage=True)
+    cfg = FAITHFUL_CFG % (maxiters, refinement, 1)
+    if module == "CPL":
+        cfg = cfg.replace("SPECIFICATION Spec", "MaxRelaxed = 2\nMaxRefuse = 2\nSPECIFICATION Spec\nINVARIANT RelaxedRange\nINVARIANT SavedBeforeUse")
+    r = tlc.run_tlc(module, cfg, wd, dump="graph", coverage=True)
     if not ck.require_tlc_ok("%s exhaustive MaxIters=%d Refinement=%d one fault anywhere" % (module, maxiters, refinement), r):
         return None
     if r.violated:
@@ -85,7 +88,7 @@ def run(tier, seed, replay=None):
 
     # 1. faithful models: contract invariants for every fault position; fault classes
     model_classes = {}
-    for module, solver in (("ConeLP", "conelp"), ("ConeQP", "coneqp")):
+    for module, solver in (("ConeLP", "conelp"), ("ConeQP", "coneqp"), ("CPL", "cpl")):
         if not os.path.exists(os.path.join(tlc.SPECS, module + ".tla")):
             continue
         cl = set()
@@ -118,6 +121,29 @@ def run(tier, seed, replay=None):
     with mp.Pool(16) as pool:
         results = pool.map(_job, jobs, chunksize=2)
     runs = [r for rs in results for r in rs]
+    # nonlinear solvers: cp / cpl / gp families, same enumeration
+    from harness import nlsuite
+    ncases = nlsuite.make_cases(lp_inst[:(16 if quick else 120)], rnd, per_inst=1)
+    nl_cfgs = [dict(), dict(kktsolver="ldl", options={"refinement": 1}), dict(options={"maxiters": 4}), dict(sparse_F=True, storage="sparse")]
+    njobs = []
+    for cs in ncases:
+        if cs["lin"] is not None and cs["lin"].get("kind") != "solvable":
+            continue
+        cf = [nl_cfgs[0]] + ([rnd.choice(nl_cfgs[1:])] if not quick else [])
+        cf = [dict(c) for c in cf]
+        for c in cf:
+            if cs["entry"] == "gp":
+                c.pop("sparse_F", None)
+        njobs.append((cs, cf, True))
+    # domain-restricted F that refuses trial points during the line search (fault-free runs; must backtrack, never raise)
+    hard = nlsuite.hard_acent_cases(rnd, 40 if quick else 400)
+    njobs += [(cs, [dict()], False) for cs in hard]
+    with mp.Pool(16) as pool:
+        nres = pool.map(nlsuite._run, njobs, chunksize=1)
+    for rs in nres:
+        for r in rs:
+            r["cfg"] = {k: v for k, v in r["cfg"].items()}
+            runs.append(r)
     for r in runs:
         if "harness_error" in r:
             ck.machinery_errors.append("driver failed: %r" % r)
@@ -129,6 +155,7 @@ def run(tier, seed, replay=None):
     if verdict is None:
         ck.finish()
     seen_classes = {}
+    refusal_runs = 0
     for i, r in enumerate(runs):
         v = verdict[i]
         ck.traces += 1
@@ -142,8 +169,10 @@ def run(tier, seed, replay=None):
         if not v["accepted"]:
             ck.violation("%s|trace-rejected|%s" % (r["solver"], v["failed"][:1]), "trace not accepted by SolverTrace", r)
             continue
+        if r.get("refused"):
+            refusal_runs += 1
         for p in v["violated"]:
-            if p not in PROPS:
+            if p not in PROPS and not (p == "NoRaiseOnWellPosed" and r["trace"][0]["cfg"]["truth"] == "solvable"):
                 continue
             last = r["trace"][-1]
             outc = last["cls"] if last["ev"] == "Raise" else last["status"]
@@ -162,5 +191,6 @@ def run(tier, seed, replay=None):
         for c in sorted(sc - mc):
             ck.drift.append("fault class %s of %s not produced by the faithful model" % (c, solver))
     ck.extra["fault_classes"] = cov
+    ck.extra["runs_with_domain_refusals"] = refusal_runs
     ck.extra["instances"] = {"conelp": len(lp_inst), "coneqp": len(qp_inst)}
     ck.finish()
